@@ -20,6 +20,7 @@ pub enum PKey {
     Log,
     /// per rule id: bit0 = can_enforce answers false, bit1 = enforce refuses
     Script(u32),
+    Moods,
 }
 
 #[contract]
@@ -54,10 +55,20 @@ impl MockPolicy {
         }
         plog(e, PolicyCall { kind: 1, rule_id: context_rule.id, signers: authenticated_signers, context: soroban_sdk::xdr::ToXdr::to_xdr(context, e), account: smart_account });
     }
+    /// bit 0: install fails, bit 1: uninstall fails
+    pub fn set_moods(e: &Env, bits: u32) {
+        e.storage().persistent().set(&PKey::Moods, &bits);
+    }
     pub fn install(e: &Env, _install_params: Val, context_rule: ContextRule, smart_account: Address) {
+        if e.storage().persistent().get::<_, u32>(&PKey::Moods).unwrap_or(0) & 1 != 0 {
+            panic!("install refused");
+        }
         plog(e, PolicyCall { kind: 2, rule_id: context_rule.id, signers: context_rule.signers.clone(), context: Bytes::new(e), account: smart_account });
     }
     pub fn uninstall(e: &Env, context_rule: ContextRule, smart_account: Address) {
+        if e.storage().persistent().get::<_, u32>(&PKey::Moods).unwrap_or(0) & 2 != 0 {
+            panic!("uninstall refused");
+        }
         plog(e, PolicyCall { kind: 3, rule_id: context_rule.id, signers: context_rule.signers.clone(), context: Bytes::new(e), account: smart_account });
     }
 }
